@@ -62,9 +62,9 @@ func init() {
 						}
 					}},
 				{Name: "lists", Serial: true, Bounds: engine.Bounds{InputDev: -1},
-					Rule: "lists of length 0..3 from 4 distinct points with repeats, EPSG:3857: output i corresponds to input i in both directions (length and order); non-trivial = distinct lists of length >= 2",
+					Rule: "lists of length 0..3 from 6 points with repeats (three of them share one position and differ only in altitude), EPSG:3857: output i corresponds to input i in both directions (length and order); non-trivial = distinct lists of length >= 2",
 					Body: func(c *engine.Ctx) {
-						pts := [][3]float64{{139.7, 35.6, 10}, {-0.1, 51.5, -3}, {179, -84, 0}, {-179, 84, 25.5}}
+						pts := [][3]float64{{139.7, 35.6, 10}, {-0.1, 51.5, -3}, {179, -84, 0}, {-179, 84, 25.5}, {139.7, 35.6, 50}, {139.7, 35.6, 0}}
 						n := c.In("len", 4)
 						var list []*object.Point
 						var idx []int
@@ -155,7 +155,14 @@ func init() {
 						}
 						a, _ := object.NewPoint(pt[0], pt[1], 7.25)
 						b, _ := object.NewPoint(pt[0]+0.01, pt[1]-0.01, -1234.5)
-						pr, err := shape.ConvertPointListToProjectedPointList([]*object.Point{a, b}, code)
+						a2, _ := object.NewPoint(pt[0], pt[1], 99.5) // same position as a, other altitude, adjacent in the list
+						pr, err := shape.ConvertPointListToProjectedPointList([]*object.Point{a, a2, b}, code)
+						if err == nil && (len(pr) != 3 || math.Float64bits(pr[1].Alt) != math.Float64bits(99.5) || math.Float64bits(pr[0].Alt) != math.Float64bits(7.25)) {
+							c.Violation("C18:ConvertPointListToProjectedPointList:length-order-or-altitude-broken", map[string]any{"code": code, "point": *pt, "case": "two adjacent entries at one position with different altitudes"})
+						}
+						if err == nil {
+							pr = []*object.ProjectedPoint{pr[0], pr[2]}
+						}
 						d := map[string]any{"code": code, "point": *pt}
 						c.Observe("%d %v %v", code, len(pr), err)
 						if err != nil {
